@@ -86,7 +86,7 @@ class Impl:
         pt = ",".join(str(int(x.put_time)) if isinstance(x, It) and x.put_time is not None else "0" for x in its)
         return "|".join([",".join(str(item_id(x)) for x in its), self.ids(st.reserve_put_queue),
                          self.ids(st.reservations_put), self.ids(st.reserve_get_queue),
-                         self.ids(st.reservations_get), pt]) + extra
+                         self.ids(st.reservations_get), pt, str(int(self.env.now))]) + extra
 
     def trig_order(self, before):
         """tokens newly triggered, in the order in which they were triggered (= kernel schedule order)"""
@@ -163,41 +163,41 @@ class Impl:
 
 
 def run_impl(kind, cap, tdelay, ops):
-    """Execute harness ops on the implementation.
-    Returns (rows, mops): rows[i] = (result, trig, state) after harness op i;
-    mops[i] = list of model op word-tuples for harness op i."""
+    """Returns (micro_ops, rows, mops, impl), one entry per micro op: an API call, one kernel
+    pop (("POP",)) or a pure time advance (("IDLE", d))."""
     im = Impl(kind, cap, tdelay)
-    rows, mops = [], []
+    micro, rows, mops = [], [], []
+
+    def pop():
+        m, trig, err = im.pop()
+        micro.append(("POP",))
+        rows.append((err or "ok", trig, im.state()))
+        mops.append(m)
+        return err
+
     for op in ops:
         k = op[0]
         if k == "STEP":
             if im.env.peek() == im.env.now:
-                m, trig, err = im.pop()
-                rows.append((err or "ok", trig, im.state()))
-                mops.append(m)
-            else:
-                rows.append(("ok", "", im.state()))
-                mops.append([])
+                pop()
         elif k == "ADV":
             target = im.env.now + op[1]
-            m, trigs, err = [], [], None
+            err = None
             while err is None and im.env.peek() < target:
-                mm, tg, err = im.pop()
-                m += mm
-                if tg:
-                    trigs.append(tg)
+                err = pop()
             if err is None:
                 t0 = im.env.now
                 im.env.run(until=target)
                 if target != t0:
-                    m.append(("TICK", int(target - t0)))
-            rows.append((err or "ok", ",".join(trigs), im.state()))
-            mops.append(m)
+                    micro.append(("IDLE", int(target - t0)))
+                    rows.append(("ok", "", im.state()))
+                    mops.append([("TICK", int(target - t0))])
         else:
             res, trig = im.api(op)
+            micro.append(op)
             rows.append((res, trig, im.state()))
             mops.append([op])
-    return rows, mops, im
+    return micro, rows, mops, im
 
 
 def model_text(kind, cap, tdelay, mops):
@@ -211,7 +211,7 @@ def model_text(kind, cap, tdelay, mops):
 
 def model_rows(lines, mops):
     """regroup model lines per harness op: (result, trig, state)"""
-    rows, i, last_state = [], 0, "|||||"
+    rows, i, last_state = [], 0, "||||||0"
     for grp in mops:
         if not grp:
             rows.append(("ok", "", last_state))
